@@ -138,7 +138,7 @@ func c03FaultScenarios(tier string) []*h.Scenario {
 			s.Events = func(hh *h.Hist, slot int) []h.Event {
 				var ev []h.Event
 				for _, n := range groupNodes(hh, g0, 6) {
-					ev = append(ev, evExtTaint(n.Name, "abc"), evExtTaint(n.Name, ""), evCordon(n.Name, !n.Spec.Unschedulable))
+					ev = append(ev, evExtTaint(n.Name, "abc"), evExtTaint(n.Name, ""), evCordon(n.Name, !n.Spec.Unschedulable), evRejectNode(n.Name), evAnnotate(n.Name, "keep"))
 				}
 				return ev
 			}
